@@ -66,7 +66,21 @@ func (g *G) decorate(p string) string {
 	if !g.E.decorateArgs || strings.HasPrefix(p, "/") || strings.HasPrefix(p, "{{work}}") || strings.HasPrefix(p, "../") || !g.Chance(25, "decorate") {
 		return p
 	}
-	switch g.Int(0, 3, "spelling") {
+	nsp := 3
+	if g.E.P != nil && g.E.P.ID == "C04" {
+		nsp = 6 // the stage oracles know that a spelling which only resolves lexically may also be refused
+	}
+	switch g.Int(0, nsp, "spelling") {
+	case 4:
+		// spellings that only a lexical clean-up resolves (stat of the raw text fails): they name p all the same
+		return p + "/"
+	case 5:
+		return "nosuchdir/../" + p
+	case 6:
+		if fs := g.WorkFiles(); len(fs) > 0 {
+			return g.Pick(fs, "fileAsDir") + "/../" + p // a regular file used like a directory; only right at top level
+		}
+		return p + "/."
 	case 0:
 		return "./" + p
 	case 1:
